@@ -164,6 +164,10 @@ func genCase(t *rapid.T) Case {
 	if c.Header {
 		sb.WriteString(";; $MODULE " + c.Module + "\n")
 	}
+	if !c.Header && gen.Chance(t, "modulecomment", 5) {
+		// with a cursor that names the module, a first line that looks like the load-file header is only a comment
+		sb.WriteString(";; $MODULE scratch/old-notes.lisp\n")
+	}
 	sb.WriteString(rapid.SampledFrom([]string{"", "", "\n", "\n\n\n", "; first line comment\n", "\r\n"}).Draw(t, "lead"))
 	sb.WriteString("(do")
 	sep := rapid.SampledFrom([]string{"\n", "\n  ", "\n\n", "\r\n", " "}).Draw(t, "sep")
